@@ -374,6 +374,16 @@ func PlaySched(beh M) ([]M, error) {
 			return nil, fmt.Errorf("sched: portal setup failed")
 		}
 	}
+	// now and then a further client is in the middle of its start-up (connected and silent, or part of its
+	// start-up packet sent) for as long as the schedule and the shutdown last: Close and Serve do not wait for it
+	var starting *mem.Conn
+	if I(beh, "_i")%4 == 3 {
+		starting = x.Dial()
+		if I(beh, "_i")%8 == 3 {
+			starting.Send([]byte{0, 0})
+		}
+		starting.WaitQuiet(WaitTimeout) //nolint
+	}
 	s.mu.Lock()
 	s.free = false
 	s.mu.Unlock()
@@ -543,11 +553,18 @@ func PlaySched(beh M) ([]M, error) {
 	// end of schedule: let everything run to completion
 	x.Log.Append(mem.Ev{"k": "sched-end"})
 	s.releaseAll()
-	for _, c := range x.Conns {
-		c.CloseClient()
-	}
-	for _, c := range x.Conns {
-		c.WaitClosed(s.StepTimeout) //nolint
+	late := I(beh, "_i")%3 == 1 // the connections stay open until the server has been closed: see below
+	if !late {
+		for _, c := range x.Conns {
+			if c != starting {
+				c.CloseClient()
+			}
+		}
+		for _, c := range x.Conns {
+			if c != starting {
+				c.WaitClosed(s.StepTimeout) //nolint
+			}
+		}
 	}
 	done := make(chan struct{})
 	go func() {
@@ -596,7 +613,56 @@ func PlaySched(beh M) ([]M, error) {
 			}
 		}
 	}
-	x.Log.Append(mem.Ev{"k": "final", "allret": allret, "served": servedNil, "wire": wireOK})
+	lateOK := true
+	if late && allret && servedNil {
+		// Close is final: every Close call has returned and the connections of the schedule are still open. Somebody
+		// calls Serve again with a listener that comes late - it returns nil at once - and the connections send one
+		// more command: no parser, no statement function runs for it
+		lis3 := mem.NewListener(nil)
+		r := make(chan error, 1)
+		go func() {
+			defer func() {
+				if p := recover(); p != nil {
+					r <- fmt.Errorf("panic: %v", p)
+				}
+			}()
+			r <- x.Srv.Serve(lis3)
+		}()
+		select {
+		case err := <-r:
+			lateOK = err == nil
+		case <-time.After(s.StepTimeout):
+			lateOK = false
+		}
+		lis3.Close()
+		mark := len(x.Log.Events())
+		for _, c := range x.Conns {
+			if c != starting && !c.ServerClosed() && c.IsIdle() {
+				c.Send(pgw.Query("q1"))
+				c.WaitQuiet(s.StepTimeout) //nolint
+			}
+		}
+		for _, e := range x.Log.Events()[mark:] {
+			if e["k"] == "cb" {
+				if n := S(AsM(e["c"]), "name"); n == "parse" || n == "stmt.start" {
+					lateOK = false
+				}
+			}
+		}
+	}
+	if late {
+		for _, c := range x.Conns {
+			c.CloseClient()
+		}
+		for _, c := range x.Conns {
+			c.WaitClosed(s.StepTimeout) //nolint
+		}
+	}
+	if starting != nil && !late {
+		starting.CloseClient()
+		starting.WaitClosed(s.StepTimeout) //nolint
+	}
+	x.Log.Append(mem.Ev{"k": "final", "allret": allret, "served": servedNil, "wire": wireOK, "late": lateOK})
 	x.Lis.Close()
 
 	out := []M{{"k": "cfg", "c": M{"closers": cfgS["closers"], "conns": cfgS["conns"]}}}
@@ -638,7 +704,7 @@ func PlaySched(beh M) ([]M, error) {
 		}
 	}
 	if final != nil {
-		out = append(out, M{"k": "final", "allret": final["allret"], "served": final["served"], "wire": final["wire"]})
+		out = append(out, M{"k": "final", "allret": final["allret"], "served": final["served"], "wire": final["wire"], "late": final["late"]})
 	}
 	return out, nil
 }
